@@ -35,6 +35,7 @@ type Env struct {
 	result []tval
 	resNames []string
 	depth  int
+	paramsOnly   bool // names other than parameters do not resolve (lemma instances tried at entry)
 	noteDistinct bool // evaluating an assumed precondition: alloc(a) != alloc(b) facts may be recorded
 }
 
@@ -322,6 +323,9 @@ func (e *Env) lookupLocal(name string) (tval, bool) {
 			}
 			return tval{T: fv.Type(), C: fr.free[i]}, true
 		}
+	}
+	if e.paramsOnly {
+		return tval{}, false
 	}
 	// local variable cells
 	for _, b := range fn.Blocks {
